@@ -1,6 +1,630 @@
-(* C16 (tag Alay) — lemmas. *)
+(* C16 (tag Alay) — lemmas about the generic accessors of Model/AlayModel.v, for any layout table
+   that passes [layout_ok]. *)
 From Coq Require Import String.
-From DS Require Import Base.Prelude Base.Bits Model.Utils Proofs.UtilsProofs Model.AlayModel Model.AlayGolden Gen.AlayLayout.
+From DS Require Import Base.Prelude Base.Bits Model.Utils Proofs.UtilsProofs.
+From DS Require Import Model.AlayModel Model.AlayWf Proofs.AlayLists.
 
-Lemma gen_is_golden_gs : AlayLayout.gs_table = AlayGolden.gs_table /\ AlayLayout.gs_size = AlayGolden.gs_size.
-Proof. split; vm_compute; reflexivity. Qed.
+(* ---------- small facts ---------- *)
+Lemma some_inj {A} (x y : A) : Some x = Some y -> x = y.
+Proof. congruence. Qed.
+
+Lemma fits_some w r x : fits w r = Some x -> x = r /\ 0 <= r < 2 ^ w.
+Proof. unfold fits. destruct (Z.leb_spec 0 r), (Z.ltb_spec r (2 ^ w)); cbn; intros E; try discriminate.
+       injection E as <-. lia. Qed.
+
+Lemma as_f64_range v r : as_f64 v = Some r -> 0 <= r < 2 ^ 64.
+Proof.
+  assert (G : forall z, f64_of_Z z = Some r -> 0 <= r < 2 ^ 64).
+  { intros z. unfold f64_of_Z. destruct (SpecFloat.binary_normalize 53 1024 z 0 false); intros E;
+      try discriminate; apply fits_some in E as [-> H]; exact H. }
+  destruct v; cbn [as_f64]; intros E; try discriminate; eauto.
+  apply fits_some in E as [-> H]; exact H.
+Qed.
+
+Lemma f32_of_f64_range x s : f32_of_f64 x = Some s -> 0 <= s < 2 ^ 32.
+Proof.
+  unfold f32_of_f64. destruct (decode 52 11 x) as [sg|sg|sg p|sg m e]; intros E.
+  1-3: apply fits_some in E as [-> H]; exact H.
+  destruct (round_to 23 8 sg m e); try discriminate; apply fits_some in E as [-> H]; exact H.
+Qed.
+
+Lemma place_length pos : forall l s, length (place pos l s) = length s.
+Proof.
+  induction pos as [|p pos IH]; intros [|x l] s; cbn [place]; try reflexivity.
+  rewrite IH. apply upd_length.
+Qed.
+
+Lemma uint_to_bytes_facts z n l : (0 < n)%nat -> uint_to_bytes z n true = Some l ->
+  bytes_to_uint l true = Some z /\ length l = n /\ bytes l /\ 0 <= z < 256 ^ Z.of_nat n.
+Proof.
+  intros Hn H. destruct (uint_bytes_roundtrip z n true l Hn H) as (A & B & C).
+  repeat split; try assumption.
+  - destruct (Z.lt_ge_cases z 0) as [Hz|Hz]; [|exact Hz].
+    rewrite uint_out_of_range_refused in H by (left; exact Hz). discriminate.
+  - destruct (Z.lt_ge_cases z (256 ^ Z.of_nat n)) as [Hz|Hz]; [exact Hz|].
+    rewrite uint_out_of_range_refused in H; [discriminate|]. right.
+    rewrite pow256 in Hz. replace (Z.of_nat (8 * n)) with (8 * Z.of_nat n) by lia. exact Hz.
+Qed.
+
+Lemma int_to_bytes_facts z n l : (0 < n)%nat -> int_to_bytes z n true = Some l ->
+  bytes_to_int l true = z /\ length l = n /\ bytes l /\
+  - 2 ^ (8 * Z.of_nat n - 1) <= z < 2 ^ (8 * Z.of_nat n - 1).
+Proof.
+  intros Hn H. destruct (int_bytes_roundtrip z n true l Hn H) as (A & B & C).
+  repeat split; try assumption.
+  - destruct (Z.lt_ge_cases z (- 2 ^ (8 * Z.of_nat n - 1))) as [Hz|Hz]; [|lia].
+    rewrite int_out_of_range_refused in H by (try exact Hn; left; exact Hz). discriminate.
+  - destruct (Z.lt_ge_cases z (2 ^ (8 * Z.of_nat n - 1))) as [Hz|Hz]; [exact Hz|].
+    rewrite int_out_of_range_refused in H by (try exact Hn; right; exact Hz). discriminate.
+Qed.
+
+(* the byte of an 8-character two's complement string: value mod 256; sweep over the 256 accepted values *)
+Definition twos_byte_ok (k : Z) : bool :=
+  let v := k - 128 in
+  match int_to_twos v 1 with
+  | Some s => (length s =? 8)%nat && (Z.land (int2 s) 255 =? v mod 256)
+  | None => false
+  end.
+
+Lemma twos_byte_sweep : forallb twos_byte_ok all_bytes = true.
+Proof. vm_compute. reflexivity. Qed.
+
+Lemma int_to_twos_byte v s : int_to_twos v 1 = Some s ->
+  length s = 8%nat /\ Z.land (int2 s) 255 = v mod 256 /\ -128 <= v < 128.
+Proof.
+  intros H.
+  assert (Hr : -128 <= v < 128).
+  { destruct (Z.lt_ge_cases v (-128)) as [Hz|Hz].
+    - rewrite twos_out_of_range_refused in H by (left; exact Hz). discriminate.
+    - destruct (Z.lt_ge_cases v 128) as [Hz2|Hz2]; [lia|].
+      rewrite twos_out_of_range_refused in H by (right; exact Hz2). discriminate. }
+  pose proof (byte_sweep twos_byte_ok twos_byte_sweep (v + 128)) as Hs.
+  unfold twos_byte_ok in Hs. replace (v + 128 - 128) with v in Hs by lia.
+  rewrite H in Hs. specialize (Hs ltac:(unfold byte; lia)).
+  apply andb_true_iff in Hs as [A B]. apply Nat.eqb_eq in A. apply Z.eqb_eq in B. auto.
+Qed.
+
+Lemma binary_to_bytes_16 sa si : length sa = 8%nat -> length si = 8%nat ->
+  binary_to_bytes (sa ++ si) true = [Z.land (int2 si) 255; Z.land (int2 sa) 255].
+Proof.
+  intros Ha Hi.
+  destruct sa as [|a0 [|a1 [|a2 [|a3 [|a4 [|a5 [|a6 [|a7 [|]]]]]]]]]; try discriminate.
+  destruct si as [|i0 [|i1 [|i2 [|i3 [|i4 [|i5 [|i6 [|i7 [|]]]]]]]]]; try discriminate.
+  reflexivity.
+Qed.
+
+Lemma bytes_to_uint_single x : byte x -> bytes_to_uint [x] true = Some x.
+Proof.
+  intros Hx. unfold bytes_to_uint, bytes_to_binary. cbn [rev app map concat].
+  rewrite app_nil_r, int2_zfill, int2_bin by (unfold byte in Hx; lia). reflexivity.
+Qed.
+
+Lemma land_255_byte x : byte (Z.land x 255).
+Proof.
+  unfold byte. change 255 with (Z.ones 8). rewrite Z.land_ones by lia.
+  pose proof (Z.mod_pos_bound x (2 ^ 8) ltac:(lia)). lia.
+Qed.
+
+(* ---------- what a setter writes ---------- *)
+(* the bytes an accepted assignment writes, as a function of the value and of the bytes read *)
+Definition written (e : axis_env) (f : field) (v : value) (b : block) : option (list Z) :=
+  match fkind f with
+  | KBool => match v with VBool x => Some [b2z x] | _ => None end
+  | KBit woff wlen idx o =>
+      match v with
+      | VBool x => Some (binary_to_bytes (rev (upd idx x (bit_view o (slice woff wlen b)))) true)
+      | _ => None
+      end
+  | KUint d => match as_int v with Some z => uint_to_bytes z (flen f) true | None => None end
+  | KInt c => match as_int v with
+              | Some z => int_to_bytes (if c then clamp e z else z) (flen f) true
+              | None => None
+              end
+  | KReal64 => option_map (le_enc 8) (as_f64 v)
+  | KReal32 => match as_f64 v with Some r => option_map (le_enc 4) (f32_of_f64 r) | None => None end
+  | KBits n pos =>
+      match v with
+      | VBools l => Some (binary_to_bytes (rev (place pos l (repeat false (8 * flen f)))) true)
+      | _ => None
+      end
+  | KVersion =>
+      match v with
+      | VPair ma mi =>
+          match int_to_twos ma 1, int_to_twos mi 1 with
+          | Some sa, Some si => Some (binary_to_bytes (sa ++ si) true)
+          | _, _ => None
+          end
+      | _ => None
+      end
+  | KView => None
+  end.
+
+Lemma set_written e f v b b' : set e f v b = Some b' ->
+  exists new, written e f v b = Some new /\ splice (fst (extent f)) new b = Some b'.
+Proof.
+  unfold set, written, extent. destruct (fkind f) as [| woff wlen idx o | d | c | | | n pos | |]; intros H.
+  - destruct v; try discriminate. destruct (flen f =? 1)%nat; [|discriminate]. eauto.
+  - destruct v; try discriminate.
+    destruct (negb (length (slice woff wlen b) =? wlen)%nat); [discriminate|].
+    destruct (idx <? length (bit_view o (slice woff wlen b)))%nat; [|discriminate]. eauto.
+  - destruct (as_int v) as [z|]; [|discriminate]. destruct (in_dom d z); [|discriminate].
+    destruct (uint_to_bytes z (flen f) true) as [bs|]; [|discriminate]. eauto.
+  - destruct (as_int v) as [z|]; [|discriminate].
+    destruct (int_to_bytes _ (flen f) true) as [bs|]; [|discriminate]. eauto.
+  - destruct (as_f64 v) as [r|]; [|discriminate]. destruct (flen f =? 8)%nat; [|discriminate]. cbn. eauto.
+  - destruct (as_f64 v) as [r|]; [|discriminate]. destruct (f32_of_f64 r) as [s|]; [|discriminate].
+    destruct (flen f =? 4)%nat; [|discriminate]. cbn. eauto.
+  - destruct v; try discriminate.
+    destruct ((length l =? n)%nat && (length pos =? n)%nat && forallb _ pos); [|discriminate]. eauto.
+  - destruct v; try discriminate.
+    destruct (int_to_twos a 1) as [sa|]; [|discriminate]. destruct (int_to_twos b0 1) as [si|]; [|discriminate].
+    eauto.
+  - discriminate.
+Qed.
+
+(* the setter never changes the size of the block — for every field, table and value *)
+Theorem set_preserves_length e f v b b' : set e f v b = Some b' -> length b' = length b.
+Proof.
+  intros H. apply set_written in H as (new & _ & Hs). eapply splice_length. exact Hs.
+Qed.
+
+Section WellFormedField.
+  Variable size : nat.
+  Variable f : field.
+  Hypothesis Hok : field_ok size f = true.
+
+  Lemma field_inside : (foff f + flen f <= size)%nat.
+  Proof. unfold field_ok in Hok. apply andb_true_iff in Hok as [H _]. apply Nat.leb_le in H. exact H. Qed.
+
+  Lemma kind_ok :
+    match fkind f with
+    | KBool => flen f = 1%nat
+    | KBit woff wlen idx o =>
+        (woff + wlen <= size)%nat /\ (0 < wlen)%nat /\ (idx < 8 * wlen)%nat /\
+        foff f = (woff + idx / 8)%nat /\ flen f = 1%nat /\ o = LsbFirst
+    | KUint d => (0 < flen f)%nat /\ dom_ok d = true
+    | KInt _ => (0 < flen f)%nat
+    | KReal64 => flen f = 8%nat
+    | KReal32 => flen f = 4%nat
+    | KBits n pos => (0 < flen f)%nat /\ length pos = n /\ nodupb pos = true /\
+                     forallb (fun p => (p <? 8 * flen f)%nat) pos = true
+    | KVersion => flen f = 2%nat
+    | KView => True
+    end.
+  Proof.
+    unfold field_ok in Hok. apply andb_true_iff in Hok as [_ H].
+    destruct (fkind f) as [| woff wlen idx o | d | c | | | n pos | |].
+    - now apply Nat.eqb_eq.
+    - repeat (apply andb_true_iff in H as [H ?]).
+      destruct o; [|discriminate].
+      repeat split; try (apply Nat.leb_le; assumption); try (apply Nat.ltb_lt; assumption);
+        try (apply Nat.eqb_eq; assumption).
+    - apply andb_true_iff in H as [H ?]. split; [now apply Nat.ltb_lt|assumption].
+    - now apply Nat.ltb_lt.
+    - now apply Nat.eqb_eq.
+    - now apply Nat.eqb_eq.
+    - repeat (apply andb_true_iff in H as [H ?]). repeat split; try assumption;
+        [now apply Nat.ltb_lt|now apply Nat.eqb_eq].
+    - now apply Nat.eqb_eq.
+    - exact I.
+  Qed.
+
+  Lemma extent_inside : (fst (extent f) + snd (extent f) <= size)%nat.
+  Proof.
+    pose proof field_inside as Hi. pose proof kind_ok as Hk. unfold extent.
+    destruct (fkind f); cbn [fst snd]; try exact Hi. destruct Hk as (H & _). exact H.
+  Qed.
+
+  (* the raw slice of the field lies inside its extent *)
+  Lemma raw_in_extent : (fst (extent f) <= foff f /\ foff f + flen f <= fst (extent f) + snd (extent f))%nat.
+  Proof.
+    pose proof kind_ok as Hk. unfold extent.
+    destruct (fkind f) as [| woff wlen idx o | | | | | | |]; cbn [fst snd]; try lia.
+    destruct Hk as (_ & _ & Hi & -> & -> & _).
+    assert (idx / 8 < wlen)%nat by (apply Nat.div_lt_upper_bound; lia). lia.
+  Qed.
+
+  Variable e : axis_env.
+  Variable b : block.
+  Hypothesis Hlen : length b = size.
+  Hypothesis Hb : bytes b.
+
+  (* what is written has exactly the size of the field's extent, and consists of bytes *)
+  Lemma written_shape v new : written e f v b = Some new -> length new = snd (extent f) /\ bytes new.
+  Proof.
+    pose proof kind_ok as Hk. unfold written, extent.
+    destruct (fkind f) as [| woff wlen idx o | d | c | | | n pos | |]; cbn [snd]; intros H.
+    - destruct v; try discriminate. apply some_inj in H; subst new. split; [now rewrite Hk|].
+      constructor; [destruct b0; unfold byte; cbn; lia|constructor].
+    - destruct v; try discriminate. apply some_inj in H; subst new.
+      destruct Hk as (Hin & Hpos & Hidx & _ & _ & ->).
+      split; [|apply binary_to_bytes_bytes]. cbn [bit_view].
+      apply binary_to_bytes_length. rewrite rev_length, upd_length, rev_length.
+      rewrite bytes_to_binary_length by (apply slice_bytes; exact Hb).
+      rewrite slice_length by lia. reflexivity.
+    - destruct (as_int v) as [z|]; [|discriminate]. destruct Hk as [Hn _].
+      destruct (uint_to_bytes_facts _ _ _ Hn H) as (_ & A & B & _). auto.
+    - destruct (as_int v) as [z|]; [|discriminate].
+      destruct (int_to_bytes_facts _ _ _ Hk H) as (_ & A & B & _). auto.
+    - destruct (as_f64 v) as [r|]; [|discriminate]. apply some_inj in H; subst new.
+      rewrite le_enc_length. split; [now rewrite Hk|apply le_enc_bytes].
+    - destruct (as_f64 v) as [r|]; [|discriminate]. destruct (f32_of_f64 r) as [s|]; [|discriminate].
+      apply some_inj in H; subst new. rewrite le_enc_length. split; [now rewrite Hk|apply le_enc_bytes].
+    - destruct v; try discriminate. apply some_inj in H; subst new. split; [|apply binary_to_bytes_bytes].
+      apply binary_to_bytes_length. rewrite rev_length, place_length, repeat_length. reflexivity.
+    - destruct v; try discriminate.
+      destruct (int_to_twos a 1) as [sa|] eqn:Ea; [|discriminate].
+      destruct (int_to_twos b0 1) as [si|] eqn:Ei; [|discriminate]. apply some_inj in H; subst new.
+      destruct (int_to_twos_byte _ _ Ea) as (La & _). destruct (int_to_twos_byte _ _ Ei) as (Li & _).
+      split; [|apply binary_to_bytes_bytes].
+      rewrite Hk. apply binary_to_bytes_length. rewrite app_length, La, Li. reflexivity.
+    - discriminate.
+  Qed.
+
+  Theorem set_preserves_bytes v b' : set e f v b = Some b' -> bytes b'.
+  Proof.
+    intros H. apply set_written in H as (new & Hw & Hs).
+    destruct (written_shape _ _ Hw) as [_ Hn]. exact (splice_bytes _ _ _ _ Hb Hn Hs).
+  Qed.
+End WellFormedField.
+
+(* ---------- reading back ---------- *)
+Lemma b2z_byte x : byte (b2z x).
+Proof. destruct x; unfold byte; cbn; lia. Qed.
+
+Lemma get_raw f (b : block) : length (slice (foff f) (flen f) b) = flen f ->
+  get f b =
+  let raw := slice (foff f) (flen f) b in
+  match fkind f with
+  | KBool => option_map (fun u => VBool (negb (u =? 0))) (bytes_to_uint raw true)
+  | KBit woff wlen idx o =>
+      let word := slice woff wlen b in
+      if negb (length word =? wlen)%nat then None
+      else option_map VBool (nth_error (bit_view o word) idx)
+  | KUint _ => option_map VInt (bytes_to_uint raw true)
+  | KInt _ => Some (VInt (bytes_to_int raw true))
+  | KReal64 => if (flen f =? 8)%nat then Some (VReal (le_dec raw)) else None
+  | KReal32 => if (flen f =? 4)%nat then Some (VReal (f64_of_f32 (le_dec raw))) else None
+  | KBits _ _ => Some (VBools (rev (bytes_to_binary raw true)))
+  | KVersion =>
+      match raw with
+      | [mi; ma] =>
+          match bytes_to_uint [ma] true, bytes_to_uint [mi] true with
+          | Some x, Some y => Some (VPair x y)
+          | _, _ => None
+          end
+      | _ => None
+      end
+  | KView => Some (VBytes raw)
+  end.
+Proof. intros H. unfold get. rewrite H, Nat.eqb_refl. reflexivity. Qed.
+
+Section GetSet.
+  Variable size : nat.
+  Variable f : field.
+  Hypothesis Hok : field_ok size f = true.
+  Variable e : axis_env.
+  Variable b : block.
+  Hypothesis Hlen : length b = size.
+  Hypothesis Hb : bytes b.
+
+  (* after an accepted assignment the getter returns the stored value *)
+  Theorem get_set_same v b' : set e f v b = Some b' ->
+    exists w, stored e f v = Some w /\ get f b' = Some w.
+  Proof.
+    intros H. pose proof (set_preserves_length _ _ _ _ _ H) as Hl'.
+    apply set_written in H as (new & Hw & Hs).
+    destruct (written_shape size f Hok e b Hlen Hb v new Hw) as [Hnl Hnb].
+    pose proof (slice_splice_same _ _ _ _ Hs) as Hrb. rewrite Hnl in Hrb.
+    pose proof (field_inside size f Hok) as Hin. pose proof (kind_ok size f Hok) as Hk.
+    assert (Hraw : length (slice (foff f) (flen f) b') = flen f) by (apply slice_length; lia).
+    rewrite (get_raw f b' Hraw). cbv zeta.
+    unfold written in Hw. unfold stored. unfold extent in Hrb, Hnl.
+    destruct (fkind f) as [| woff wlen idx o | d | c | | | n pos | |]; cbn [fst snd] in Hrb, Hnl.
+    - destruct v; try discriminate. apply some_inj in Hw; subst new. rewrite Hrb.
+      rewrite bytes_to_uint_single by apply b2z_byte. cbn [option_map].
+      exists (VBool b0). split; [reflexivity|]. destruct b0; reflexivity.
+    - destruct v; try discriminate. apply some_inj in Hw.
+      destruct Hk as (Hwin & Hpos & Hidx & _ & _ & ->). cbn [bit_view] in *.
+      rewrite Hrb, Hnl, Nat.eqb_refl. cbn [negb].
+      set (view := rev (bytes_to_binary (slice woff wlen b) true)) in *.
+      assert (Hvl : length view = (8 * wlen)%nat).
+      { unfold view. rewrite rev_length, bytes_to_binary_length by (apply slice_bytes; exact Hb).
+        rewrite slice_length by lia. reflexivity. }
+      subst new. rewrite (binary_bytes_roundtrip _ true wlen) by (rewrite rev_length, upd_length; exact Hvl).
+      rewrite rev_involutive, nth_error_upd_same by lia.
+      exists (VBool b0). split; reflexivity.
+    - destruct (as_int v) as [z|]; [|discriminate]. destruct Hk as [Hn _].
+      destruct (uint_to_bytes_facts _ _ _ Hn Hw) as (A & _). rewrite Hrb, A.
+      exists (VInt z). split; reflexivity.
+    - destruct (as_int v) as [z|]; [|discriminate].
+      destruct (int_to_bytes_facts _ _ _ Hk Hw) as (A & _). rewrite Hrb, A.
+      exists (VInt (if c then clamp e z else z)). split; reflexivity.
+    - destruct (as_f64 v) as [r|] eqn:Ev; [|discriminate]. apply some_inj in Hw; subst new.
+      rewrite Hrb, Hk, Nat.eqb_refl. rewrite le_dec_enc_small by (apply as_f64_range in Ev; exact Ev).
+      exists (VReal r). split; reflexivity.
+    - destruct (as_f64 v) as [r|] eqn:Ev; [|discriminate].
+      destruct (f32_of_f64 r) as [s|] eqn:Es; [|discriminate]. apply some_inj in Hw; subst new.
+      rewrite Hrb, Hk, Nat.eqb_refl.
+      rewrite le_dec_enc_small by (apply f32_of_f64_range in Es; exact Es).
+      exists (VReal (f64_of_f32 s)). split; reflexivity.
+    - destruct v; try discriminate. apply some_inj in Hw; subst new. rewrite Hrb.
+      rewrite (binary_bytes_roundtrip _ true (flen f))
+        by (rewrite rev_length, place_length, repeat_length; reflexivity).
+      rewrite rev_involutive. eexists. split; reflexivity.
+    - destruct v; try discriminate.
+      destruct (int_to_twos a 1) as [sa|] eqn:Ea; [|discriminate].
+      destruct (int_to_twos b0 1) as [si|] eqn:Ei; [|discriminate]. apply some_inj in Hw; subst new.
+      destruct (int_to_twos_byte _ _ Ea) as (La & Va & _). destruct (int_to_twos_byte _ _ Ei) as (Li & Vi & _).
+      rewrite Hrb, (binary_to_bytes_16 _ _ La Li).
+      rewrite !bytes_to_uint_single by apply land_255_byte. rewrite Va, Vi.
+      eexists. split; reflexivity.
+    - discriminate.
+  Qed.
+
+  (* an accepted value is in the documented domain of the field: anything else is refused *)
+  Theorem set_accepts v b' : set e f v b = Some b' -> accepts e f v.
+  Proof.
+    intros H. pose proof (kind_ok size f Hok) as Hk.
+    unfold set in H. unfold accepts.
+    destruct (fkind f) as [| woff wlen idx o | d | c | | | n pos | |].
+    - destruct v; try discriminate. eauto.
+    - destruct v; try discriminate. eauto.
+    - destruct (as_int v) as [z|]; [|discriminate]. destruct (in_dom d z) eqn:Ed; [|discriminate].
+      destruct (uint_to_bytes z (flen f) true) as [bs|] eqn:Eu; [|discriminate].
+      destruct Hk as [Hn _]. destruct (uint_to_bytes_facts _ _ _ Hn Eu) as (_ & _ & _ & Hr). eauto.
+    - destruct (as_int v) as [z|]; [|discriminate].
+      destruct (int_to_bytes _ (flen f) true) as [bs|] eqn:Eu; [|discriminate].
+      destruct (int_to_bytes_facts _ _ _ Hk Eu) as (_ & _ & _ & Hr). eauto.
+    - destruct (as_f64 v) as [r|]; [|discriminate]. eauto.
+    - destruct (as_f64 v) as [r|]; [|discriminate]. destruct (f32_of_f64 r) as [s|] eqn:Es; [|discriminate].
+      exists r, s. auto.
+    - destruct v; try discriminate.
+      destruct ((length l =? n)%nat) eqn:El; [|discriminate]. apply Nat.eqb_eq in El. eauto.
+    - destruct v; try discriminate.
+      destruct (int_to_twos a 1) as [sa|] eqn:Ea; [|discriminate].
+      destruct (int_to_twos b0 1) as [si|] eqn:Ei; [|discriminate].
+      destruct (int_to_twos_byte _ _ Ea) as (_ & _ & Ra). destruct (int_to_twos_byte _ _ Ei) as (_ & _ & Ri).
+      eauto 6.
+    - discriminate.
+  Qed.
+
+  Corollary set_refuses_out_of_domain v : ~ accepts e f v -> set e f v b = None.
+  Proof. intros Hn. destruct (set e f v b) as [b'|] eqn:E; [|reflexivity]. exfalso. eauto using set_accepts. Qed.
+End GetSet.
+
+(* ---------- assigning one field changes no other ---------- *)
+(* a getter only reads inside the extent of its field *)
+Lemma get_ext size g (b1 b2 : block) : field_ok size g = true ->
+  length b1 = size -> length b2 = size ->
+  (forall o n, (fst (extent g) <= o)%nat -> (o + n <= fst (extent g) + snd (extent g))%nat ->
+               slice o n b1 = slice o n b2) ->
+  get g b1 = get g b2.
+Proof.
+  intros Hg H1 H2 Hs.
+  pose proof (raw_in_extent size g Hg) as [Ra Rb]. pose proof (kind_ok size g Hg) as Hk.
+  assert (Hraw : slice (foff g) (flen g) b1 = slice (foff g) (flen g) b2) by (apply Hs; lia).
+  unfold get. rewrite Hraw.
+  destruct (negb (length (slice (foff g) (flen g) b2) =? flen g)%nat); [reflexivity|].
+  unfold extent in Hs, Ra, Rb.
+  destruct (fkind g) as [| woff wlen idx o | | | | | | |]; try reflexivity.
+  cbn [fst snd] in *. rewrite (Hs woff wlen) by lia. reflexivity.
+Qed.
+
+Lemma compat_sym f g : compat f g = compat g f.
+Proof.
+  unfold compat, disjoint, extent, is_view.
+  destruct (fkind f) as [| w1 l1 i1 o1 | | | | | | |]; destruct (fkind g) as [| w2 l2 i2 o2 | | | | | | |];
+    cbn [fst snd orb]; try reflexivity; try apply orb_comm.
+  rewrite (Nat.eqb_sym w2 w1), (Nat.eqb_sym l2 l1), (Nat.eqb_sym i2 i1).
+  destruct ((w1 =? w2)%nat && (l1 =? l2)%nat); [reflexivity|apply orb_comm].
+Qed.
+
+Section GetSetOther.
+  Variable size : nat.
+  Variables f g : field.
+  Hypothesis Hf : field_ok size f = true.
+  Hypothesis Hg : field_ok size g = true.
+  Hypothesis Hc : compat f g = true.
+  Hypothesis Hgv : is_view g = false.
+  Variable e : axis_env.
+  Variable b : block.
+  Hypothesis Hlen : length b = size.
+  Hypothesis Hb : bytes b.
+
+  Theorem get_set_other v b' : set e f v b = Some b' -> get g b' = get g b.
+  Proof.
+    intros H. pose proof (set_preserves_length _ _ _ _ _ H) as Hl'.
+    assert (Hfv : is_view f = false).
+    { unfold is_view. unfold set in H. destruct (fkind f); try reflexivity. discriminate. }
+    apply set_written in H as (new & Hw & Hs).
+    destruct (written_shape size f Hf e b Hlen Hb v new Hw) as [Hnl _].
+    unfold compat in Hc. rewrite Hfv, Hgv in Hc. cbn [orb] in Hc.
+    (* the generic argument: disjoint extents *)
+    assert (Hdis : disjoint (extent f) (extent g) = true -> get g b' = get g b).
+    { intros Hd. apply (get_ext size); try assumption; try lia.
+      intros o n Ho Hn. eapply slice_splice_disjoint; [exact Hs|].
+      rewrite Hnl. unfold disjoint in Hd. apply orb_true_iff in Hd as [Hd|Hd]; apply Nat.leb_le in Hd; lia. }
+    pose proof (kind_ok size f Hf) as Hkf. pose proof (kind_ok size g Hg) as Hkg.
+    destruct (fkind f) as [| w1 l1 i1 o1 | | | | | | |] eqn:Kf;
+      try (apply Hdis; destruct (fkind g); exact Hc).
+    destruct (fkind g) as [| w2 l2 i2 o2 | | | | | | |] eqn:Kg;
+      try (apply Hdis; first [exact Hc | unfold extent; rewrite Kf, ?Kg; exact Hc]).
+    destruct ((w1 =? w2)%nat && (l1 =? l2)%nat) eqn:Esame;
+      [|apply Hdis; first [exact Hc | unfold extent; rewrite Kf, Kg; exact Hc]].
+    (* two bits of the same word *)
+    apply andb_true_iff in Esame as [Ew El]. apply Nat.eqb_eq in Ew, El. subst w2 l2.
+    apply negb_true_iff, Nat.eqb_neq in Hc.
+    destruct Hkf as (Hwin & Hpos & Hi1 & _ & _ & ->). destruct Hkg as (_ & _ & Hi2 & Hgo & Hgl & ->).
+    unfold written in Hw. rewrite Kf in Hw. destruct v; try discriminate. apply some_inj in Hw.
+    unfold extent in Hs, Hnl. rewrite Kf in Hs, Hnl. cbn [fst snd] in Hs, Hnl.
+    pose proof (slice_splice_same _ _ _ _ Hs) as Hword. rewrite Hnl in Hword.
+    unfold get. rewrite Kg.
+    rewrite (slice_length_same (foff g) (flen g) b b') by lia.
+    destruct (negb (length (slice (foff g) (flen g) b) =? flen g)%nat); [reflexivity|].
+    rewrite Hword. rewrite Hnl, Nat.eqb_refl. rewrite slice_length by lia. rewrite Nat.eqb_refl.
+    cbn [negb bit_view] in *. f_equal.
+    set (view := rev (bytes_to_binary (slice w1 l1 b) true)) in *.
+    assert (Hvl : length view = (8 * l1)%nat).
+    { unfold view. rewrite rev_length, bytes_to_binary_length by (apply slice_bytes; exact Hb).
+      rewrite slice_length by lia. reflexivity. }
+    subst new. rewrite (binary_bytes_roundtrip _ true l1) by (rewrite rev_length, upd_length; exact Hvl).
+    rewrite rev_involutive. apply nth_error_upd_other. exact Hc.
+  Qed.
+End GetSetOther.
+
+(* ---------- table level ---------- *)
+Lemma pairwise_in {A} (r : A -> A -> bool) l : pairwise r l = true ->
+  forall x y, In x l -> In y l -> x <> y -> r x y = true \/ r y x = true.
+Proof.
+  induction l as [|h t IH]; intros Hp x y Hx Hy Hne; [destruct Hx|].
+  cbn [pairwise] in Hp. apply andb_true_iff in Hp as [Hh Ht]. rewrite forallb_forall in Hh.
+  destruct Hx as [<-|Hx], Hy as [<-|Hy].
+  - congruence.
+  - left. apply Hh, Hy.
+  - right. apply Hh, Hx.
+  - apply IH; assumption.
+Qed.
+
+Lemma names_unique t : pairwise names_differ t = true ->
+  forall f g, In f t -> In g t -> fname f = fname g -> f = g.
+Proof.
+  induction t as [|h t IH]; intros Hp f g Hf Hg Hn; [destruct Hf|].
+  cbn [pairwise] in Hp. apply andb_true_iff in Hp as [Hh Ht]. rewrite forallb_forall in Hh.
+  destruct Hf as [<-|Hf], Hg as [<-|Hg].
+  - reflexivity.
+  - specialize (Hh _ Hg). unfold names_differ in Hh. rewrite Hn, String.eqb_refl in Hh. discriminate.
+  - specialize (Hh _ Hf). unfold names_differ in Hh. rewrite Hn, String.eqb_refl in Hh. discriminate.
+  - apply IH; assumption.
+Qed.
+
+Lemma find_field_some t n f : find_field t n = Some f -> In f t /\ fname f = n.
+Proof.
+  induction t as [|h t IH]; cbn [find_field]; [discriminate|].
+  destruct (String.eqb (fname h) n) eqn:E.
+  - intros H. injection H as <-. apply String.eqb_eq in E. split; [left; reflexivity|exact E].
+  - intros H. destruct (IH H). split; [right; assumption|assumption].
+Qed.
+
+Section Table.
+  Variable size : nat.
+  Variable t : list field.
+  Hypothesis Hok : layout_ok size t = true.
+
+  Lemma table_field_ok f : In f t -> field_ok size f = true.
+  Proof.
+    intros Hf. unfold layout_ok in Hok. apply andb_true_iff in Hok as [H _].
+    apply andb_true_iff in H as [H _]. rewrite forallb_forall in H. auto.
+  Qed.
+
+  Lemma table_compat f g : In f t -> In g t -> fname f <> fname g -> compat f g = true.
+  Proof.
+    intros Hf Hg Hn. unfold layout_ok in Hok. apply andb_true_iff in Hok as [H _].
+    apply andb_true_iff in H as [_ H].
+    destruct (pairwise_in compat t H f g Hf Hg) as [Hc|Hc]; [congruence|exact Hc|].
+    rewrite compat_sym. exact Hc.
+  Qed.
+
+  Lemma table_names f g : In f t -> In g t -> fname f = fname g -> f = g.
+  Proof.
+    unfold layout_ok in Hok. apply andb_true_iff in Hok as [_ H]. apply names_unique. exact H.
+  Qed.
+
+  Variable e : axis_env.
+
+  (* enumerated fields keep holding documented codes under every assignment *)
+  Theorem enum_ok_preserved f v b b' : In f t -> length b = size -> bytes b ->
+    enum_ok t b = true -> set e f v b = Some b' -> enum_ok t b' = true.
+  Proof.
+    intros Hf Hl Hb He Hs. unfold enum_ok in *. rewrite forallb_forall in *. intros g Hg.
+    specialize (He g Hg). unfold enum_field_ok in *.
+    destruct (fkind g) as [| | d | | | | | |] eqn:Kg; try reflexivity.
+    destruct (string_dec (fname f) (fname g)) as [En|En].
+    - (* the assigned field itself *)
+      assert (f = g) by (apply table_names; assumption). subst g.
+      destruct (get_set_same size f (table_field_ok f Hf) e b Hl Hb v b' Hs) as (w & Hw & ->).
+      pose proof (set_accepts size f (table_field_ok f Hf) e b v b' Hs) as Ha.
+      unfold accepts in Ha. unfold stored in Hw. rewrite Kg in Ha, Hw.
+      destruct Ha as (z & Ez & Ed & _). rewrite Ez in Hw. cbn in Hw. injection Hw as <-. exact Ed.
+    - rewrite (get_set_other size f g (table_field_ok f Hf) (table_field_ok g Hg)
+                 (table_compat f g Hf Hg En) ltac:(unfold is_view; rewrite Kg; reflexivity) e b Hl Hb v b' Hs).
+      exact He.
+  Qed.
+
+  (* by-name versions *)
+  Lemma setn_some n v b b' : setn t e n v b = Some b' ->
+    exists f, find_field t n = Some f /\ In f t /\ fname f = n /\ set e f v b = Some b'.
+  Proof.
+    unfold setn. destruct (find_field t n) as [f|] eqn:E; [|discriminate].
+    intros H. destruct (find_field_some _ _ _ E). eauto.
+  Qed.
+
+  (* every state reached from a good block by any sequence of assignments (refused ones included)
+     is a good block: right size, bytes, documented codes *)
+  Definition good (b : block) : Prop := length b = size /\ bytes b /\ enum_ok t b = true.
+
+  Lemma good_step op b : good b -> good (set_or_keep t e op b).
+  Proof.
+    intros (Hl & Hb & He). unfold set_or_keep.
+    destruct (setn t e (fst op) (snd op) b) as [b'|] eqn:E; [|repeat split; assumption].
+    apply setn_some in E as (f & _ & Hf & _ & Hs).
+    repeat split.
+    - rewrite (set_preserves_length _ _ _ _ _ Hs). exact Hl.
+    - eapply set_preserves_bytes; eauto using table_field_ok.
+    - eapply enum_ok_preserved; eauto.
+  Qed.
+
+  Theorem good_reachable ops : forall b, good b -> good (run_sets t e ops b).
+  Proof.
+    unfold run_sets. induction ops as [|op ops IH]; intros b Hg; [exact Hg|].
+    cbn [fold_left]. apply IH. apply good_step. exact Hg.
+  Qed.
+End Table.
+
+(* ---------- canonical values are read back exactly ---------- *)
+Lemma firstn_upd {A} k (x : A) s : (k < length s)%nat -> firstn (S k) (upd k x s) = firstn k s ++ [x].
+Proof.
+  revert k; induction s as [|h t IH]; intros [|k] H; cbn in *; try lia; [reflexivity|].
+  f_equal. apply IH. lia.
+Qed.
+
+Lemma skipn_upd {A} k j (x : A) s : (k < j)%nat -> skipn j (upd k x s) = skipn j s.
+Proof.
+  revert k j; induction s as [|h t IH]; intros [|k] [|j] H; cbn; try reflexivity; try lia.
+  apply IH. lia.
+Qed.
+
+Lemma place_seq {A : Type} : forall (l : list bool) k (s : list bool), (k + length l <= length s)%nat ->
+  place (seq k (length l)) l s = firstn k s ++ l ++ skipn (k + length l) s.
+Proof.
+  induction l as [|x l IH]; intros k s H.
+  - cbn [length seq place app]. rewrite Nat.add_0_r. symmetry. apply firstn_skipn.
+  - cbn [length seq place] in *. rewrite IH by (rewrite upd_length; lia).
+    rewrite firstn_upd by lia. rewrite skipn_upd by lia. rewrite <- app_assoc. cbn [app].
+    replace (S k + length l)%nat with (k + S (length l))%nat by lia. reflexivity.
+Qed.
+
+Theorem canonical_read_back size f e b v b' : field_ok size f = true -> length b = size -> bytes b ->
+  canonical e f v -> set e f v b = Some b' -> get f b' = Some v.
+Proof.
+  intros Hok Hl Hb Hc Hs.
+  destruct (get_set_same size f Hok e b Hl Hb v b' Hs) as (w & Hw & ->). f_equal.
+  pose proof (set_accepts size f Hok e b v b' Hs) as Ha.
+  unfold canonical in Hc. unfold stored in Hw. unfold accepts in Ha.
+  destruct (fkind f) as [| woff wlen idx o | d | c | | | n pos | |]; try destruct c; destruct v; cbv beta iota in Hc;
+    try contradiction;
+    cbn [as_int as_f64 option_map] in *.
+  - congruence.
+  - congruence.
+  - congruence.
+  - injection Hw as <-. unfold clamp. f_equal. lia.
+  - congruence.
+  - destruct Ha as (r & Er). rewrite Er in Hw. apply fits_some in Er as [-> _]. cbn in Hw. congruence.
+  - destruct Hc as [-> Hn8]. destruct Ha as (l' & El & Hn).
+    assert (l' = l) by congruence. subst l'.
+    rewrite <- Hn8 in Hw. apply some_inj in Hw. subst w. f_equal.
+    rewrite <- Hn. rewrite (place_seq (A := bool)) by (rewrite repeat_length; lia).
+    cbn [firstn app]. rewrite skipn_all2 by (rewrite repeat_length; lia). apply app_nil_r.
+  - destruct Ha as (ma & mi & E & Ra & Ri). injection E as <- <-. injection Hw as <-.
+    destruct Hc. rewrite !Z.mod_small by lia. reflexivity.
+Qed.
